@@ -63,11 +63,21 @@ func (c *XAConn) PrepareContext(ctx context.Context, query string) (driver.Stmt,
 	//	return types.NewResult(types.WithRows(ret)), nil
 	//})
 
-	return c.Conn.PrepareContext(ctx, query)
+	stmt, err := c.Conn.PrepareContext(ctx, query)
+	if err != nil {
+		return nil, err
+	}
+	return ownedBy(stmt, c), nil
 }
 
 // QueryContext exec xa sql
 func (c *XAConn) QueryContext(ctx context.Context, query string, args []driver.NamedValue) (driver.Rows, error) {
+	return c.queryWith(ctx, query, args, c.Conn.QueryContext)
+}
+
+// queryWith runs a query inside the XA handling of the connection; do sends it to the database
+func (c *XAConn) queryWith(ctx context.Context, query string, args []driver.NamedValue,
+	do func(ctx context.Context, query string, args []driver.NamedValue) (driver.Rows, error)) (driver.Rows, error) {
 	if c.createOnceTxContext(ctx) {
 		defer func() {
 			c.txCtx = types.NewTxCtx()
@@ -75,7 +85,7 @@ func (c *XAConn) QueryContext(ctx context.Context, query string, args []driver.N
 	}
 
 	ret, err := c.createNewTxOnExecIfNeed(ctx, func() (types.ExecResult, error) {
-		ret, err := c.Conn.QueryContext(ctx, query, args)
+		ret, err := do(ctx, query, args)
 		if err != nil {
 			return nil, err
 		}
@@ -88,6 +98,12 @@ func (c *XAConn) QueryContext(ctx context.Context, query string, args []driver.N
 }
 
 func (c *XAConn) ExecContext(ctx context.Context, query string, args []driver.NamedValue) (driver.Result, error) {
+	return c.execWith(ctx, query, args, c.Conn.ExecContext)
+}
+
+// execWith runs a statement inside the XA handling of the connection; do sends it to the database
+func (c *XAConn) execWith(ctx context.Context, query string, args []driver.NamedValue,
+	do func(ctx context.Context, query string, args []driver.NamedValue) (driver.Result, error)) (driver.Result, error) {
 	if c.createOnceTxContext(ctx) {
 		defer func() {
 			c.txCtx = types.NewTxCtx()
@@ -95,7 +111,7 @@ func (c *XAConn) ExecContext(ctx context.Context, query string, args []driver.Na
 	}
 
 	ret, err := c.createNewTxOnExecIfNeed(ctx, func() (types.ExecResult, error) {
-		ret, err := c.Conn.ExecContext(ctx, query, args)
+		ret, err := do(ctx, query, args)
 		if err != nil {
 			return nil, err
 		}
